@@ -418,29 +418,55 @@ def analyse_run(prog, F, W, run):
         if kparam is None and len(ctor.param_ids) >= 4:
             kparam = ctor.param_ids[3]
     uses = [n for n in run.walk() if n.k == 'DeclRefExpr' and n.decl_id == out]
-    throwing = []
-    for b in cfg.branch_blocks():
-        c = cfg.effective_cond(b)
-        if c is None:
-            continue
-        for ix in (0, 1):
-            s = b.succ[ix]
-            if s is None:
+
+    def throwing_of(f_):
+        res_ = []
+        cfg_ = f_.cfg
+        if cfg_ is None:
+            return res_
+        for b in cfg_.branch_blocks():
+            c = cfg_.effective_cond(b)
+            if c is None:
                 continue
-            region = cfg.reachable_blocks(s)
-            # a rejecting edge: every path from it throws (cannot reach a normal return)
-            normal = False
-            for rb in region:
-                blk = cfg.blocks[rb]
-                if cfg.exit in [x for x in blk.succ if x is not None]:
-                    last = [run.nodes.get(e) for e in blk.elems if e is not None and e >= 0]
-                    last = [n for n in last if n is not None]
-                    if not any(n.k == 'CXXThrowExpr' for n in last):
-                        normal = True
-            if not normal and region:
-                throwing.append((b, c, ix))
+            for ix in (0, 1):
+                s = b.succ[ix]
+                if s is None:
+                    continue
+                region = cfg_.reachable_blocks(s)
+                # a rejecting edge: every path from it throws (cannot reach a normal return)
+                normal = False
+                for rb in region:
+                    blk = cfg_.blocks[rb]
+                    if cfg_.exit in [x for x in blk.succ if x is not None]:
+                        last = [f_.nodes.get(e) for e in blk.elems if e is not None and e >= 0]
+                        last = [n for n in last if n is not None]
+                        if not any(n.k == 'CXXThrowExpr' for n in last):
+                            normal = True
+                if not normal and region:
+                    res_.append((b, c, ix, f_, None))
+        return res_
+    throwing = throwing_of(run)
+    if not throwing:
+        # the precondition check may live in a helper of the class that run() calls first: `check_preconditions();`
+        for hc in run.walk():
+            if hc.k == 'CXXMemberCallExpr' and hc.callee and hc.callee.get('in_repo') and hc.callee_id is not None and \
+                    not any(ex.refs_var(a_, out) for a_ in hc.args()):
+                hf = prog.fn_of_fref(hc.callee_id)
+                if hf is not None and hf.body is not None and hf.j.get('rec_id') == run.j.get('rec_id') and \
+                        any(x.k == 'CXXThrowExpr' for x in hf.walk()):
+                    throwing += [(b, c, ix, hf, hc) for (b, c, ix, _f, _h) in throwing_of(hf)]
+        # only guards that are integer expressions over k count as "the" precondition check of a helper
+        def _evaluable(c_, f_):
+            e_ = {}
+            for fid, lst in fdefs.items():
+                if len(lst) == 1:
+                    e_[('def', fid)] = lst[0][0]
+            if kparam is not None:
+                e_[kparam] = 0
+            return lin_eval(c_, f_, e_) is not None
+        throwing = [t for t in throwing if _evaluable(t[1], t[3])]
     decided = False
-    for (b, c, ix) in throwing:
+    for (b, c, ix, gfn, hcall) in throwing:
         env0 = {}
         # bind every field to its constructor initialiser, the k parameter to a concrete value
         def make_env(kval):
@@ -451,14 +477,18 @@ def analyse_run(prog, F, W, run):
             if kparam is not None:
                 e[kparam] = kval
             return e
-        v0 = lin_eval(c, run, make_env(0))
-        vs = [lin_eval(c, run, make_env(kv)) for kv in (1, 2, 3, 7, 1000)]
+        v0 = lin_eval(c, gfn, make_env(0))
+        vs = [lin_eval(c, gfn, make_env(kv)) for kv in (1, 2, 3, 7, 1000)]
         if v0 is None or any(v is None for v in vs):
             continue
         rejects0 = bool(v0) == (ix == 0)
         rejects_pos = [bool(v) == (ix == 0) for v in vs]
         # the guard must dominate every use of the output iterator
-        dom = all(cfg.block_dominates(b.id, cfg.pos_of(u)[0]) for u in uses if cfg.pos_of(u))
+        if hcall is None:
+            dom = all(cfg.block_dominates(b.id, cfg.pos_of(u)[0]) for u in uses if cfg.pos_of(u))
+        else:
+            # the helper is entered before every use of the iterator, and inside it the guard is on every path
+            dom = all(cfg.dominates(hcall, u) for u in uses) and gfn.cfg.block_postdominates(b.id, gfn.cfg.entry) if hasattr(gfn.cfg, 'block_postdominates') else False
         decided = True
         if rejects0 and not any(rejects_pos) and dom:
             F.add('R06a', c, run, what, 'ok', 'guard `%s` evaluated with k:=0 rejects, with k in {1,2,3,7,1000} accepts; dominates all %d uses of the iterator' % (c.text(40), len(uses)))
@@ -869,7 +899,11 @@ def analyse_construct(prog, F, W, fn):
         else:
             F.add('R15c', sc, fn, whatc, 'undecided', 'comparator not recognised (%s)' % vdetail)
     if not okc:
-        F.add('R15c', loop, fn, whatc, 'violation', 'the scanned sequence is not sorted before the scan', key='R15c|%s|no-sort' % fn.g)
+        dom_sorts = [sc for sc in sorts if cfg.dominates(sc, loop.cond if loop.cond is not None else ae)]
+        if dom_sorts:
+            F.add('R15c', dom_sorts[0], fn, whatc, 'undecided', 'a sort dominates the scan but what it sorts / what the scan iterates is outside the idiom table')
+        else:
+            F.add('R15c', loop, fn, whatc, 'violation', 'the scanned sequence is not sorted before the scan', key='R15c|%s|no-sort' % fn.g)
 
     # ---- R05c / R15d weights, R05d translation
     for n in add_edges:
@@ -890,6 +924,7 @@ def analyse_construct(prog, F, W, fn):
         weighted = False
         recorded = False
         custom_record = []
+        wrong_value = []
         wdetail = ''
         if len(n.args()) == 4:
             prop = n.args()[2]
@@ -908,6 +943,7 @@ def analyse_construct(prog, F, W, fn):
                         wdetail = 'put(edge_weight, S, e_S, W_G[e])'
                     elif same_path:
                         wdetail = 'weight written is not W_G of the current edge'
+                        wrong_value.append(a[3])
                 if len(a) == 3 and atom(W.world(a[0])) == 'S' and ex.var_of(a[1]) == evar and evar is not None:
                     if is_g_weight_read(W, a[2], cur_edge_vars) and same_path:
                         weighted = True
@@ -940,6 +976,9 @@ def analyse_construct(prog, F, W, fn):
                   key='R05c|%s|lossy-copy' % fn.g)
         elif weighted:
             F.add('R05c', n, fn, whatw, 'ok', wdetail)
+        elif wrong_value and not _known_wrong_weight(W, wrong_value[0]):
+            # a weight is written, but where it comes from is outside the idiom table (a cached copy, a decorated sequence, a helper)
+            F.add('R05c', n, fn, whatw, 'undecided', 'the weight written for the new edge is `%s`, whose origin is not traced to the caller\'s weight map' % wrong_value[0].text(40))
         else:
             F.add('R05c', n, fn, whatw, 'violation',
                   'add_edge(u, v, spanner) value-initialises the edge weight to 0 and nothing writes the input weight for it%s: '
@@ -991,6 +1030,18 @@ def stale_table_read(prog, fn, rhs, reach_call):
 
 
 _LOSSY_COPIES = []
+
+
+def _known_wrong_weight(W, val):
+    """the written value is positively something else than an input weight: a constant, or a read of a map that is not the caller's"""
+    s = val.strip_all()
+    if s.cv is not None or s.k in ('FloatingLiteral', 'IntegerLiteral', 'CXXScalarValueInitExpr'):
+        return True
+    if s.k == 'CallExpr' and s.callee and s.callee['g'] == 'boost::get' and len(s.args()) in (2, 3):
+        return True          # a property / map read that was not accepted as W_G[current edge]
+    if s.k == 'CXXOperatorCallExpr' and s.op == '[]':
+        return True
+    return False
 
 
 def is_g_weight_read(W, n, cur_edge_vars, depth=0):
